@@ -928,6 +928,7 @@ def run(ctx):
     check_merge_iterators(ctx, f)
     check_covers_family(ctx, f)
     check_covers_inclusion(ctx, f)
+    masks_decided = check_bits_masks(ctx, f) or set()
 
     # ---- C13.e shift sites ---------------------------------------------------------------
     shifts = []
@@ -949,8 +950,13 @@ def run(ctx):
            "covers/cmp return before a shift by 128; from_v4/into_v4 shift by the constant 96)", detail={"found": got, "reviewed": want})
     for fn, rows in ((A + "Bits::clear_host", [("len=0", RC("len", 0, 0), ret_is("addr::Bits{0: 0}"), "Bits(0)")]),
                      (A + "Bits::into_max", [("prefix_len≥128", RC("prefix_len", 128, 255), ret_is("self"), "self unchanged")])):
-        table(ctx, f, fn, rows)
+        # these two rows spell the edge case as a literal outcome; where the function was decided bit by bit for every
+        # length (check_bits_masks) that verdict stands — `bits & !(MAX >> 0)` is as good a zero as `Bits(0)`
+        if fn not in masks_decided:
+            table(ctx, f, fn, rows)
     for fn in (A + "Bits::clear_host", A + "Bits::into_max"):
+        if fn in masks_decided:
+            continue
         paths, it, err = K.run_absint(f, fn)
         if paths is not None:
             pan = [p for p in paths if p.outcome[0] != "return"]
@@ -1854,12 +1860,17 @@ def _bv_eval(t, b, env):
     """Value of a term under concrete prefix lengths: an int (lengths, constants, arithmetic on them) or a _BitVec."""
     t, txt = _term_text(t, b)
     k = t[0]
-    m = _LENRX.match(txt)
-    if m:
-        return env["len"][m.group(1)]
-    m = _BITSRX.match(txt)
-    if m:
-        return _BitVec.address(m.group(1), env["len"][m.group(1)])
+    if txt in env.get("ints", ()):
+        return env["ints"][txt]
+    if txt in env.get("vecs", ()):
+        return env["vecs"][txt]
+    if "len" in env:
+        m = _LENRX.match(txt)
+        if m:
+            return env["len"][m.group(1)]
+        m = _BITSRX.match(txt)
+        if m:
+            return _BitVec.address(m.group(1), env["len"][m.group(1)])
     if k == "const":
         v = t[1]
         if isinstance(v, bool):
@@ -1879,6 +1890,11 @@ def _bv_eval(t, b, env):
             return args[0]
         if nm in ("saturating_sub", "wrapping_sub") and all(isinstance(a, int) for a in args) and len(args) == 2:
             return max(args[0] - args[1], 0) if nm == "saturating_sub" else (args[0] - args[1]) & 0xFF
+        if nm in ("wrapping_shl", "wrapping_shr") and len(args) == 2 and isinstance(args[1], int):
+            x, y = args[0], args[1] % _W            # the shift amount is taken modulo the width
+            if isinstance(x, int):
+                x = _BitVec.const(x)
+            return _BitVec(x.bits[y:] + [0] * y) if nm == "wrapping_shl" else _BitVec([0] * y + x.bits[:_W - y])
         if nm in ("min", "max") and all(isinstance(a, int) for a in args) and len(args) == 2:
             return min(args) if nm == "min" else max(args)
         raise _CoversUnsupported("call %s" % (nm or t[1]))
@@ -1972,6 +1988,35 @@ def _covers_system(a, b, env):
         a, neg = a[1], not neg
     if a[0] == "const":
         return bool(a[1]) != neg
+    if a[0] == "cmp" and a[1] in (">=", ">", "<", "<="):
+        # `x.trailing_zeros() >= n` / `x.leading_zeros() >= n`: the last / first n bits are zero
+        op, lhs, rhs = a[1], a[2], a[3]
+        lt, rt = _term_text(lhs, b)[0], _term_text(rhs, b)[0]
+        if rt[0] == "call" and (rt[3] or {}).get("name") in ("trailing_zeros", "leading_zeros"):
+            lhs, rhs, lt, rt = rhs, lhs, rt, lt
+            op = {">=": "<=", ">": "<", "<": ">", "<=": ">="}[op]
+        if not (lt[0] == "call" and (lt[3] or {}).get("name") in ("trailing_zeros", "leading_zeros")):
+            raise _CoversUnsupported("ordering of address values")
+        x, n = _bv_eval(lt[2][0], b, env), _bv_eval(rhs, b, env)
+        if not isinstance(n, int):
+            raise _CoversUnsupported("zero count compared with an address value")
+        if isinstance(x, int):
+            x = _BitVec.const(x)
+        if op in ("<", "<="):
+            neg, op = not neg, {"<": ">=", "<=": ">"}[op]
+        if op == ">":
+            n += 1
+        if n > _W:
+            return neg
+        rows = list(x.bits[_W - n:]) if n > 0 and lt[3]["name"] == "trailing_zeros" else list(x.bits[:max(n, 0)])
+        rr = _rref(rows)
+        if _BitVec.ONE in rr:
+            return neg
+        if not rr:
+            return not neg
+        if neg:
+            raise _CoversUnsupported("negated zero-count test")
+        return rr
     if a[0] != "cmp" or a[1] not in ("==", "!="):
         raise _CoversUnsupported("result %s" % (a[0],))
     if a[1] == "!=":
@@ -2144,3 +2189,105 @@ def check_covers_inclusion(ctx, f):
            detail={"paths": len(ps), "length_pairs": 33 * 33 + 129 * 129, "path_evaluations": judged,
                    "counterexamples": [x for x in bad if x][:6], "n_counterexamples": len(bad)})
     ctx.floor("R-REG", "feasible (path, length pair) evaluations of Prefix::covers", judged, 17000)
+
+
+def check_bits_masks(ctx, f):
+    """The three mask helpers every Prefix constructor and range computation rests on, decided for every length 0..=128
+    over 128-bit vectors of GF(2) forms in the address bits: `clear_host(len)` keeps exactly the first len bits and zeroes
+    the rest, `into_max(len)` keeps the first len bits and sets the rest, `is_host_zero(len)` is true exactly when every
+    bit from position len on is zero.  A shift by 128 or more on a feasible path is an overflow (debug builds panic,
+    release builds wrap to a shift by 0).  Anything outside the vocabulary gives no verdict."""
+    from engine import orderlogic as OL
+    SPECS = {
+        "clear_host": lambda v, n: [v.bits[k] if k < n else 0 for k in range(_W)],
+        "into_max": lambda v, n: [v.bits[k] if k < n else _BitVec.ONE for k in range(_W)],
+        "is_host_zero": lambda v, n: _rref(list(v.bits[n:])) or True,
+    }
+    seen = 0
+    decided = set()
+    for short_name, spec in sorted(SPECS.items()):
+        fn = A + "Bits::" + short_name
+        b = f.body(fn)
+        if b is None:
+            ctx.missing("R-REG", "Bits::" + short_name, fn)
+            continue
+        ctx.saw_fn(fn)
+        key = "Bits::%s:every-length" % short_name
+        what = {"clear_host": "Bits::clear_host(len) keeps the first len address bits and clears all others",
+                "into_max": "Bits::into_max(len) keeps the first len address bits and sets all others",
+                "is_host_zero": "Bits::is_host_zero(len) is true exactly when every bit from position len on is zero"}[short_name] + \
+            " — for every len in 0..=128 (bit-vector evaluation over GF(2); no full-width shift on a feasible path)"
+        s = K.sym_of(b)
+        trails = []
+        try:
+            ps = OL.paths(b, s, trails=trails)
+        except OL.NotComparisonOnly as e:
+            ctx.ob("R-REG", key, True, what + " — no verdict: not loop-free (%s)" % e, where=b.loc, noverdict=True)
+            continue
+        _TXT.clear()
+        bad, unsupported, judged = [], [], 0
+        full = _BitVec.address("self", _W)
+        for n in range(_W + 1):
+            env = {"ints": {"%2": n}, "vecs": {"self.0": full, "self": full}}
+            want = spec(full, n)
+            for conds, ret in ps:
+                feasible, certain = True, True
+                for a, truth in conds:
+                    v = None
+                    neg = False
+                    while a[0] == "not":
+                        a, neg = a[1], not neg
+                    if a[0] == "cmp":
+                        try:
+                            x, y = _bv_eval(a[2], b, env), _bv_eval(a[3], b, env)
+                        except (_CoversUnsupported, OverflowError):
+                            x = y = None
+                        if isinstance(x, int) and isinstance(y, int):
+                            v = {"<": x < y, "<=": x <= y, ">": x > y, ">=": x >= y, "==": x == y, "!=": x != y}[a[1]]
+                    if v is None:
+                        certain = False
+                        continue
+                    if (v != neg) != truth:
+                        feasible = False
+                        break
+                if not feasible:
+                    continue
+                judged += 1
+                try:
+                    if ret is None:
+                        raise _CoversUnsupported("no returned value")
+                    if short_name == "is_host_zero":
+                        got = _covers_system(OL.atom(ret), b, env)
+                    else:
+                        rt = _term_text(ret, b)[0]
+                        if rt[0] == "agg" and len(rt[3]) == 1:
+                            rt = rt[3][0][1]
+                        got = _bv_eval(rt, b, env)
+                        if isinstance(got, int):
+                            got = _BitVec.const(got)
+                        got = got.bits
+                except _CoversUnsupported as e:
+                    unsupported.append(str(e))
+                    continue
+                except OverflowError as e:
+                    if certain:
+                        bad.append({"len": n, "problem": str(e)})
+                    else:
+                        unsupported.append("a branch condition on the way to a shift could not be evaluated")
+                    continue
+                if got != want:
+                    if certain:
+                        wrong = [k for k in range(_W) if got[k] != want[k]][:4] if short_name != "is_host_zero" else None
+                        bad.append({"len": n, "returns": K.alpha(render(ret), b)[:120], "wrong_bit_positions": wrong})
+                    else:
+                        unsupported.append("a branch condition on the way to a result could not be evaluated")
+        if unsupported and not bad:
+            ctx.ob("R-REG", key, True, what + " — no verdict: outside the bit-vector vocabulary (%s)" % sorted(set(unsupported))[0],
+                   where=b.loc, noverdict=True)
+            continue
+        seen += 1
+        decided.add(fn)
+        ctx.ob("R-REG", key, not bad, what, where=b.loc,
+               detail={"paths": len(ps), "lengths": _W + 1, "path_evaluations": judged, "counterexamples": bad[:5], "n_counterexamples": len(bad)})
+    ctx.floor("R-REG", "mask helpers of Bits decided for every length", seen, 3)
+    return decided
